@@ -39,13 +39,21 @@ def _strip(fn):
     return fn
 
 
-WORLDS_QUICK = ['chain3', 'mount2', 'mount2p', 'uses2', 'parts_ext', 'optns', 'longval', 'ctxshare']
-WORLDS_ALL = ['chain3', 'diamond', 'mount2', 'mount2p', 'uses2', 'parts_ext', 'optns', 'longval', 'ctxshare', 'parts', 'optpat', 'ctxmove', 'types_line']
+WORLDS_QUICK = ['chain3', 'mount2', 'mount2p', 'uses2', 'parts_ext', 'optns', 'longval', 'ctxshare', 'chain3mem']
+WORLDS_ALL = ['chain3', 'diamond', 'mount2', 'mount2p', 'uses2', 'parts_ext', 'optns', 'longval', 'ctxshare', 'chain3mem', 'parts', 'optpat', 'ctxmove', 'types_line']
 
 
 def plan(tier):
     out = []
     for name in (WORLDS_QUICK if tier == 'quick' else WORLDS_ALL):
+        if name == 'chain3mem':
+            # an in-memory task in the middle, failures of it and of its input, retries on the SAME chain object
+            desc = families.chain3(kinds=('list_of_numpy', 'inmemory', 'json'))
+            desc['name'] = 'chain3mem'
+            sp = specs.build(desc, ops=('new', 'value', 'fail', 'restart'), slots=1, faults=[('A', 'raise'), ('B', 'raise')], max_faults=1)
+            sp['variants'] = sp['variants'][:2]
+            out.append((desc, sp, 3, 5))
+            continue
         desc = families.ALL[name]()
         if name == 'chain3':
             desc = families.chain3(run='args')  # inputs and parameters reach run() as arguments
@@ -114,7 +122,11 @@ def replay(case):
         from tcv.core import Violation as V
         vs, n = procleg._job((families.ALL[case['world']](), case['segs'], 'C01', 0))
         return [V(v['signature'], v['what'], v['case']) for v in vs]
-    desc = families.ALL[case['world'] if case['world'] != 'types' else 'types_line']()
+    if case['world'] == 'chain3mem':
+        desc = families.chain3(kinds=('list_of_numpy', 'inmemory', 'json'))
+        desc['name'] = 'chain3mem'
+    else:
+        desc = families.ALL[case['world'] if case['world'] != 'types' else 'types_line']()
     if case['world'] == 'chain3':
         desc = families.chain3(run='args')
         desc['_shared_cfg'] = True
